@@ -20,6 +20,30 @@ for i in range(1, 16):
         technique="TLA+ spec (PoolImpl + Monitor) model-checked with TLC; trace validation of real executions against the TLA+ monitor; TLC-generated schedules replayed on the code",
         engine="pool")
 
+CTL_NOTE = ("Trusted: argparse/asyncio streams of CPython 3.12; sessions are driven through ControlServer._client_connected_cb over "
+            "in-memory StreamReader + recording writer on the single-step loop (C16-C18) and over real loopback TCP / Unix sockets with "
+            "bounded waits (C19); parameter values come from a finite hand-picked domain per parameter (sampled, not exhaustive).")
+CLAIMED["C16"] = dict(category="model_checking", engine="control", design_ref="DESIGN.md section 6 (C16)", note=CTL_NOTE,
+    text="spec/Control.tla (session: connected -> named; command surface = public members of the pool class, reflected at check time) "
+         "is model-checked by TLC; for TaskPool, SimpleTaskPool and a subclass with postponed annotations x several terminal widths every public "
+         "member's -h/--help and a sample of non-public names are sent to a real session and the recorded run is judged by TLC (Control!CtlMon).",
+    technique="TLA+ session spec model-checked with TLC; trace validation of real sessions (all public members x widths) against it")
+CLAIMED["C17"] = dict(category="translation_validation", engine="control", design_ref="DESIGN.md section 6 (C17)", note=CTL_NOTE,
+    text="Command lines are the programs: TLC enumerates them from the reflected command table (spec/CtlCommands.tla: command x subset of options x "
+         "one value per parameter); each is sent to a real session and performed as a direct method call on a twin pool; TLC checks the reply rule of "
+         "the specification ('ok' for None, else str(result|exception)) and the equality of both pools' observable state after every command.",
+    technique="translation validation: TLC-enumerated command lines vs. direct calls on a twin pool, judged by the TLA+ reply rule")
+CLAIMED["C18"] = dict(category="model_checking", engine="control", design_ref="DESIGN.md section 6 (C18)", note=CTL_NOTE,
+    text="spec/Control.tla: TLC checks reply accounting, isolation and 'malformed input never alters the pool' for every interleaving of two "
+         "sessions and <= 4-5 lines over all line classes; every such behaviour is run on real sessions (serialised with a twin pool, and raw with "
+         "queued lines / racing sessions, arbitrary printable text included) and judged record by record by Control!CtlMon.",
+    technique="TLA+ session protocol model-checked with TLC; its behaviours replayed on real sessions; trace validation by the same spec")
+CLAIMED["C19"] = dict(category="model_checking", engine="control", design_ref="DESIGN.md section 6 (C19)", note=CTL_NOTE,
+    text="spec/Control.tla lifecycle (idle/serving/stopping/stopped, connections, 3.12 wait_closed): TLC checks DoneMeansGone, PoolUntouched and the "
+         "liveness property StopCompletes under fairness; event orders (serve, connect, command, disconnect by close/EOF/CLI exit, stop) generated "
+         "from the spec are run on real TCP and Unix sockets, the bundled CLI client as a subprocess, and judged by Control!SockMon.",
+    technique="TLA+ server lifecycle spec (safety + liveness) with TLC; spec-generated event orders run on real sockets; trace validation")
+
 NOT_YET = {}
 
 def main():
@@ -33,6 +57,8 @@ def main():
         "engines": [
             {"name": "pool", "path": "tools/poolcheck.py", "serves_properties": ["C%02d" % i for i in range(1, 16)],
              "kind_free_text": "TLC on spec/PoolImpl*.tla + spec/Monitor.tla; harness/poolrun.py single-steps the real event loop; spec/PoolTrace.tla judges recorded traces"},
+            {"name": "control", "path": "tools/ctlcheck.py", "serves_properties": ["C16", "C17", "C18", "C19"],
+             "kind_free_text": "TLC on spec/Control.tla + spec/CtlCommands.tla; harness/ctlrun.py (in-memory sessions, twin pool) and harness/ctlsock.py (real sockets, CLI client); spec/ControlTrace.tla judges recorded runs"},
         ],
         "checks": [], "not_applicable": [],
         "notes": "All checks share one pipeline run per (tier, seed, content of /repo/src and of the machinery), cached under /verif/.work/cache; every check rewrites its own evidence file. KNOWN_FINDINGS.txt lists open and fixed genuine defects.",
